@@ -104,6 +104,20 @@ def objectify(v, methods_for):
     return v
 
 
+def relist(val, h):
+    """A list value is any iterable: hand it over as the list itself, a tuple, a one-shot iterator or a generator (chosen by
+    the response path, inner lists too) - what is consumed once can only be walked once."""
+    items = [relist(x, h // 4 + i) if isinstance(x, list) else x for i, x in enumerate(val)]
+    k = h % 4
+    if k == 0:
+        return items
+    if k == 1:
+        return tuple(items)
+    if k == 2:
+        return iter(items)
+    return (x for x in items)
+
+
 _SUB = {}
 
 
@@ -111,6 +125,16 @@ def _resolver_error_subclass(base):
     if base not in _SUB:
         _SUB[base] = type("NotFoundError", (type("ApplicationError", (base,), {}),), {})
     return _SUB[base]
+
+
+def _keyed_error_subclass(base):
+    """an application error with a constructor of its own (two required parameters, the message is derived from them)"""
+    if ("keyed", base) not in _SUB:
+        def __init__(self, kind, key, extensions=None):
+            base.__init__(self, "%s%s" % (kind, key), extensions=extensions)
+            self.kind, self.key = kind, key
+        _SUB[("keyed", base)] = type("KeyedError", (base,), {"__init__": __init__})
+    return _SUB[("keyed", base)]
 
 
 def make_resolver(tn, fd, wrap=None, methods_for=None):
@@ -134,6 +158,9 @@ def make_resolver(tn, fd, wrap=None, methods_for=None):
                 ext = types.MappingProxyType(ext)   # `extensions` is declared as a Mapping: a read-only view is one
             # applications subclass ResolverError (its documentation invites it): every other error is of a subclass
             cls = ResolverError if len(b[1]) % 2 else _resolver_error_subclass(ResolverError)
+            if len(b[1]) % 4 == 2 and sum(map(ord, b[1])) % 3:
+                keyed = _keyed_error_subclass(ResolverError)
+                cls = lambda m, extensions=None: keyed(m[:1], m[1:], extensions=extensions)  # noqa
             if sum(map(ord, b[1])) % 3 == 0:
                 # an error that arrives with a path of its own (re-raised from a delegated request, or built with the
                 # documented `path` argument): the response path of the failing field is what has to be reported
@@ -146,7 +173,10 @@ def make_resolver(tn, fd, wrap=None, methods_for=None):
                     yield  # pragma: no cover
                 return failing()
             raise cls(b[1], extensions=ext)
-        return objectify(b[1], methods_for) if methods_for else b[1]
+        val = objectify(b[1], methods_for) if methods_for else b[1]
+        if isinstance(val, list):
+            val = relist(val, sum(map(ord, repr(path))))
+        return val
 
     resolver.__name__ = "resolve_%s_%s" % (tn, fd["name"])
     return wrap(resolver, tn, fd) if wrap else resolver
@@ -215,7 +245,7 @@ def _make_schema(spec, mode="code", wrap=None, default_fields=None, root_default
         for fd in spec.fields(tn):
             if not is_default(tn, fd):
                 resolvers[(tn, fd["name"])] = make_resolver(tn, fd, wrap, methods_for)
-    schema = GS.build_code(spec, resolvers)
+    schema = GS.build_code(spec, resolvers, discover=mode == "code-discover")
     _remember_root(schema, RootObj(methods_for, roots) if root_defaults else None)
     return schema, spec
 
